@@ -160,6 +160,28 @@ func init() {
 			o.Unstratified = rapid.IntRange(0, 2).Draw(t, "unstratified") == 0
 			o.Suppress = rapid.IntRange(0, 2).Draw(t, "suppress") == 0 // SuppressError around anything, recursive references included
 			g := GenGrammar(t, o)
+			if o.Trims && rapid.IntRange(0, 2).Draw(t, "rtrimrepeat") == 0 {
+				// one consuming rule is reached at one position by a right trim that may reject the
+				// whitespace behind it and by a repetition over another right trim of it
+				nl := nullableRules(g)
+				var cons []int
+				for i, isNull := range nl {
+					if !isNull {
+						cons = append(cons, i)
+					}
+				}
+				if len(cons) > 0 {
+					k := cons[rapid.IntRange(0, len(cons)-1).Draw(t, "rtrimrule")]
+					first := &Expr{K: KSeqOf, Kids: []*Expr{{K: KRTrim, Mode: rapid.SampledFrom([]int{0, 0, 1, 3}).Draw(t, "rtrimm1"), Kids: []*Expr{rf(k)}}, tm('b')}}
+					rep := &Expr{K: KMany, Kids: []*Expr{{K: KRTrim, Mode: rapid.SampledFrom([]int{2, 2, 1}).Draw(t, "rtrimm2"), Kids: []*Expr{rf(k)}}}}
+					kind := KAny
+					if rapid.Bool().Draw(t, "rtrimchoice") {
+						kind = KChoice
+					}
+					g.Rules[0] = &Expr{K: kind, Kids: []*Expr{first, rep, g.Rules[0]}}
+					g.number()
+				}
+			}
 			wideRune := 0
 			if rapid.IntRange(0, 5).Draw(t, "wide") == 0 {
 				wideRune = int(rapid.SampledFrom([]rune{0x80, 0xe9, 0xff, 0x100, 0x7ff, 0x800, 0x20ac, 0xfffd, 0xffff, 0x10000, 0x1f600}).Draw(t, "wideRune"))
